@@ -133,11 +133,17 @@ func (s *state) handleAction(act *milter.Action) module.CheckResult {
 	case milter.ActContinue:
 		return module.CheckResult{}
 	case milter.ActReplyCode:
+		// The milter chooses the basic code, keep the enhanced code in the
+		// same class.
+		enchCode := exterrors.EnhancedCode{5, 7, 1}
+		if act.SMTPCode/100 == 4 {
+			enchCode[0] = 4
+		}
 		return module.CheckResult{
 			Reject: true,
 			Reason: &exterrors.SMTPError{
 				Code:         act.SMTPCode,
-				EnhancedCode: exterrors.EnhancedCode{5, 7, 1},
+				EnhancedCode: enchCode,
 				Message:      "Message rejected due to local policy",
 				Reason:       "reply code action",
 				CheckName:    "milter",
